@@ -19,7 +19,7 @@ VER = ("RSplitR", "@", R5)
 NS = ("RSplitL", "/", R6)
 NAME = ("RSplitROpt", "/", R6)
 
-SEG = ("Item", "/", ("Trim", "/", IN))
+SEG = ("Item", "/", IN)  # canonical form of an element of split('/') of the (possibly trimmed) input: models._item
 SEGD = ("Decode", SEG)
 QITEM = ("Item", "&", IN)
 QKEY = ("SplitL", "=", QITEM)
@@ -227,6 +227,22 @@ def loosen(x):
     return x
 
 
+def merge_inlists(atoms):
+    """x == "a" | x == "b"  ==  x in ("a", "b"): in a disjunction, positive membership atoms on one subject are one atom"""
+    groups = {}
+    out = set()
+    for a in atoms:
+        if a[0] == "inlist" and a[-1] is True:
+            groups.setdefault(a[2], set()).update(a[1])
+        elif a[0] == "empty" and a[-1] is True and any(b[0] == "inlist" and b[-1] is True and b[2] == a[1] for b in atoms):
+            groups.setdefault(a[1], set()).add("")
+        else:
+            out.add(a)
+    for subj, vals in groups.items():
+        out.add(("inlist", tuple(sorted(vals)), subj, True))
+    return out
+
+
 def neg(a):
     return a[:-1] + (not a[-1],) if isinstance(a[-1], bool) else a
 
@@ -326,7 +342,7 @@ def row_matches(facts, rl, inv, ref, row, role_refs=()):
     if ref["kind"] == "err":
         if row["kind"] != "err" or row["error"] != ref["error"]:
             return False
-        trigs = set(row.get("triggers", []))
+        trigs = merge_inlists(set(row.get("triggers", [])))
         pool = set(row.get("catoms", [])) | trigs
         hits = None
         if "trigger" in ref:
@@ -342,7 +358,7 @@ def row_matches(facts, rl, inv, ref, row, role_refs=()):
             elif loosen(trigs) == loosen({t}):
                 hits = list(trigs)
         elif "triggers" in ref:
-            if loosen(trigs) == loosen(ref["triggers"]):
+            if loosen(trigs) == loosen(merge_inlists(set(ref["triggers"]))):
                 hits = list(trigs)
         else:
             tk = ref["trigger_kind"]
